@@ -55,12 +55,12 @@ func NewSlice3(base unsafe.Pointer, eltSize, cap, i, j, k int) (s Slice) {
 
 // SliceAppend append elem data and returns a slice.
 func SliceAppend(src Slice, data unsafe.Pointer, num, etSize int) Slice {
-	if etSize == 0 {
-		return src
-	}
+	// Zero-size elements take the same path: nothing is copied, but the
+	// length (and, when exceeded, the capacity) must still grow.
 	oldLen := src.len
 	src = GrowSlice(src, num, etSize)
-	c.Memcpy(c.Advance(src.data, oldLen*etSize), data, uintptr(num*etSize))
+	// data may alias src's own storage (append(s[:i], s[j:]...)): memmove.
+	c.Memmove(c.Advance(src.data, oldLen*etSize), data, uintptr(num*etSize))
 	return src
 }
 
